@@ -47,7 +47,8 @@ PLANS = {
         "rule": "one evaluation = one execution of a closed system (1-3 producers through a random entry point, 1..MAX_STREAMS parked-when-Pending consumers, "
                 "random channel kind/BUFFER_SIZE/MAX_STREAMS/prefill) under a seeded schedule (SER: conductor strategies random/PCT/targeted-pause/round-robin; "
                 "FREE: 16 cores + injected delays), run to exact quiescence; distinct = distinct (schedule hash, configuration); non-trivial = at least one consumer "
-                "parked and was woken again, or the run ended with an undelivered event",
+                "parked and was woken again, or the run ended with an undelivered event; in some of the runs with replaced wakers only the waker of the most recent poll wakes the "
+                "consumer, which now and then polls again with a new waker although nobody woke it (a stream that moved to another task)",
         "quick":    [ser(20), free(8, shards=8), ser(8, flavor="checked", shards=8)],
         "thorough": [ser(240), free(120), ser(120, flavor="checked")],
         "min_evaluations": {"quick": 2000, "thorough": 20000},
@@ -56,7 +57,7 @@ PLANS = {
     "C16": plan("workload `cycles`: one evaluation = one sequential history of 1-60 (thorough: 1-400) fill/drain cycles on one channel (7 rejecting kinds, every entry point, random polls / releases / length "
                 "queries mixed in), every answer compared with an exact reference model (accept iff occupancy < BUFFER_SIZE, rejected send leaves pending_items_count and deliveries unchanged, "
                 "exactly BUFFER_SIZE accepted on the emptied channel); workload `retry`: one evaluation = 2-4 producers retrying rejected sends against one consumer (SER: conductor stall verdict "
-                "for a send that neither succeeds nor returns; FREE: 16 cores), followed by a capacity probe of the emptied channel; non-trivial = at least one send was rejected in the run",
+                "for a send that neither succeeds nor returns; FREE: 16 cores), followed by a capacity probe of the emptied channel; scenario `held` (1 SER run in 5): BUFFER_SIZE-1 events buffered + the last slot reserved by a thread that waits for the others, the others' sends must be rejected promptly (per-operation step bound), then reservation sent, conservation, capacity probe; non-trivial = at least one send was rejected in the run",
                 [dict(flavor="fast", lane="free", secs=8, args=["--set", "workload=cycles"]), ser(12), free(8, shards=8), dict(flavor="checked", lane="free", secs=5, shards=4, args=["--set", "workload=cycles"])],
                 [dict(flavor="fast", lane="free", secs=120, args=["--set", "workload=cycles"]), ser(150), free(100), dict(flavor="checked", lane="free", secs=60, args=["--set", "workload=cycles"]), ser(60, flavor="checked")],
                 2000, 20000, ["excluded by the property: Arc-based Multi kinds and the setter-based sends of the crossbeam Uni channel past their fullness test (they wait by documented design)"]),
@@ -66,14 +67,14 @@ PLANS = {
                 "spun >= 600 times in a retry loop / performed >= 600 unproductive attempts) + delivery of everything accepted; non-trivial = a setter was really suspended; "
                 "driven lane (harness workload C04 with entry=async_gated): the first producer's send_with_async stays suspended until every consumer -- minimal executors that park on Pending -- has drained what was "
                 "pending and parked and every other producer has finished; it then completes, and at exact quiescence its event (and every other accepted one) must have been delivered: 'when the suspended send finally "
-                "completes, its event is delivered as well' to a stream that nobody else will wake (kinds: those implementing send_with_async minus the two of C20-D9 and the four atomic-ring kinds of C04-D3/D10)",
+                "completes, its event is delivered as well' to a stream that nobody else will wake (kinds: those implementing send_with_async minus the two of C20-D9 and the four atomic-ring kinds of C04-D3/D10); the length-query thread also issues flush(unbounded) while a send is suspended (polled by the harness, every Pending answer an unproductive attempt: a flush that keeps waiting ends in the stall verdict)",
                 [ser(25), dict(flavor="fast", lane="ser", secs=8, workload="C04", args=["--set", "entry=async_gated"])],
                 [ser(240), ser(80, flavor="checked"), dict(flavor="fast", lane="ser", secs=100, workload="C04", args=["--set", "entry=async_gated"]), dict(flavor="checked", lane="ser", secs=40, workload="C04", args=["--set", "entry=async_gated"])], 500, 5000,
                 ["'for however long' is restated as: suspended until everybody else has finished (a finite run cannot observe more)", "stall threshold K=600 consecutive unproductive steps per thread"]),
     "C13": plan("one evaluation = one concurrent history of 2-4 threads (alloc_ref / alloc_with, hold, dealloc_id / dealloc_ref, exhaust-until-None and refill bursts) on an OgreArrayPoolAllocator "
                 "over either free-list ring, POOL_SIZE in {2,4,8}, free-list sequence counters starting at 0, next to the 32-bit wrap or anywhere; online ownership-table monitor (one atomic per slot, "
                 "cleared before dealloc), owner tag integrity, id<->reference bijection; offline WGL linearizability against an id-pool model; exhaust-and-refill probe afterwards; workload `long`: "
-                "2-8 free-running threads, 20k-100k operations each under the online monitor only; distinct = distinct observed history",
+                "2-8 free-running threads, 20k-100k operations each under the online monitor only; 1 run in 3 pools values with a destructor (destructor on garbage / twice is reported), 1 in 4 issues some operations from a destructor while the thread unwinds from a panic; distinct = distinct observed history",
                 [ser(12), free(8), dict(flavor="fast", lane="free", secs=6, shards=8, args=["--set", "workload=long"]), ser(5, flavor="checked", shards=8)],
                 [ser(150), free(100), dict(flavor="fast", lane="free", secs=100, args=["--set", "workload=long"]), ser(60, flavor="checked"), dict(flavor="asan", lane="free", secs=60, crash_is_violation=True)], 2000, 20000),
     "C14": plan("one evaluation = one execution of 2-3 threads running scripts over {clone, drop, deref, increment_references+raw_copy, move to another thread, references_count} on handles to 1-2 pooled "
@@ -84,18 +85,18 @@ PLANS = {
     "C07": plan("one evaluation = one execution on a random channel kind (11 kinds), MAX_STREAMS in {1,2,4}, 1..4 streams of which all (cancel_all_streams) or a random non-empty subset "
                 "(gracefully_end_stream, unbounded timeout, driven on a paused-time runtime) are targeted by a requester thread at a scheduler-chosen moment; targeted streams are driven by a "
                 "minimal executor (park on Pending), the others poll; 0-2 producers send before and after; oracles: no targeted stream parked-and-not-ended at exact quiescence, no Pending from a "
-                "poll started after the request returned, request completes (stall verdict), untargeted streams receive every accepted event, all ids reusable afterwards; distinct = (schedule, config)",
+                "poll started after the request returned, request completes (stall verdict), untargeted streams receive every accepted event, all ids reusable afterwards; in 1 run of 5 every stream is dropped while its thread unwinds from a panic (a failing consumer task); distinct = (schedule, config)",
                 [ser(15), free(8), ser(6, flavor="checked", shards=8)], [ser(200), free(120), ser(80, flavor="checked")], 2000, 20000),
     "C17": plan("one evaluation = one execution with 2-3 steady listeners (polling threads), 1-2 producers (random entry points) and a churn thread that creates and drops 1-3 (FREE: 1-12) further listeners, "
                 "on a random Multi kind (6 kinds, MAX_STREAMS >= 4); oracles: steady listeners exactly-once and in order, churned listeners contiguous runs without repeats, pooled kinds accept BUFFER_SIZE "
                 "events again after every queue was drained; every anomaly carries the causal flag 'the affected send overlapped a create/drop-listener operation' (only those match the known finding); "
-                "distinct = (schedule, config); the evidence counts the sends that really overlapped a churn operation",
+                "hand-over mode (1 run in 3 where ids allow): two churn threads whose listeners send events themselves within their lifetime and poll until empty, the first thread's drops are held back at a drawn step (targeted pause inside a marked region) and resumed after such sends; anomalies of the steady listeners (lowest ids, fixed list positions) are never attributed to the known finding; distinct = (schedule, config); the evidence counts the sends that really overlapped a churn operation",
                 [ser(15), free(8), ser(6, flavor="checked", shards=8)], [ser(200), free(120), ser(80, flavor="checked"), dict(flavor="asan", lane="free", secs=60, crash_is_violation=True)], 2000, 20000),
     "C05": plan("one evaluation = one execution + teardown on a random kind (Uni movable x3, zero-copy x2, Multi arc x3, ogre_arc x2), payload with destructor (4/5) or without: 1-3 producers, 1-3 consumers that "
                 "keep up to 4 handles across later sends, clone them, convert unique->shared, hand clones to another thread that drops them, some consumers stop early so that 0..N events are still "
                 "buffered when the channel is torn down (after every handle was released); oracles: drop tracker (double drop, drop while a handle is held, destructor on garbage), payload re-read "
                 "through every handle at release, instances alive = created - destroyed per event at the quiescent end (0 if delivered and released, 1 if still buffered), capacity probe; the same "
-                "workloads in the AddressSanitizer build (a sanitizer report or crash is a violation); distinct = (schedule, config)",
+                "workloads in the AddressSanitizer build (a sanitizer report or crash is a violation); in some runs something is left half-done at teardown (a reserved slot neither sent nor cancelled, a send_with_async cancelled while its setter was suspended); payload code (Default, Drop) is a preemption point; distinct = (schedule, config)",
                 [ser(12), free(8), dict(flavor="asan", lane="ser", secs=8, shards=8, crash_is_violation=True), dict(flavor="asan", lane="free", secs=6, shards=4, crash_is_violation=True), ser(5, flavor="checked", shards=8)],
                 [ser(150), free(100), dict(flavor="asan", lane="ser", secs=100, crash_is_violation=True), dict(flavor="asan", lane="free", secs=80, crash_is_violation=True), ser(60, flavor="checked")], 2000, 20000,
                 ["assumes (as the property does) that setters initialise the slot with ptr::write and that handles do not outlive their channel", "a leak (payload never destroyed at teardown) is not reported: the property demands 'at most once' there"]),
@@ -103,7 +104,7 @@ PLANS = {
                 "the 5 kinds that implement reservations, BUFFER_SIZE in {2..64}, sequence origin 0 / in [2^32-3N, 2^32+N] / anywhere, every answer predicted by the reference model of seq.rs, then all "
                 "open reservations resolved legally and the emptied channel must accept exactly BUFFER_SIZE events; workload `exhaustive`: EVERY legal script up to the depth bound (quick 6 / thorough 8 for N=2, "
                 "4 / 6 for N=4) x 3 origins (0, 2^32-3, one of the window) x both ways of resolving what is left open; workload `concurrent`: a reservation script on one thread against a polling "
-                "consumer (SER/FREE), delivered = sent exactly once with the written content, cancelled never delivered, capacity probe; distinct = distinct transcript",
+                "consumer (SER/FREE), delivered = sent exactly once with the written content, cancelled never delivered, capacity probe; 1-3 reserving threads where reservations are independent (the 4 pooled kinds); distinct = distinct transcript",
                 [dict(flavor="fast", lane="free", secs=6), dict(flavor="fast", lane="free", secs=12, args=["--set", "workload=exhaustive"]), dict(flavor="checked", lane="free", secs=6, shards=8),
                  dict(flavor="checked", lane="free", secs=12, shards=8, args=["--set", "workload=exhaustive"]), dict(flavor="fast", lane="ser", secs=6, args=["--set", "workload=concurrent"]), dict(flavor="fast", lane="free", secs=5, shards=8, args=["--set", "workload=concurrent"])],
                 [dict(flavor="fast", lane="free", secs=100), dict(flavor="fast", lane="free", secs=240, args=["--set", "workload=exhaustive"]), dict(flavor="checked", lane="free", secs=80),
@@ -112,7 +113,7 @@ PLANS = {
     "C15": plan("one evaluation = one single-threaded script (3-120, thorough 3-300 steps) run twice -- on a fresh object and on one whose sequence counters start at k -- and the two transcripts (every result, "
                 "delivered value, reported length, panic) compared; targets: 9 channel kinds built on the rings (send, send_with, send_with_async, reserve/send-reserved/cancel, poll, release, length, teardown "
                 "with leftovers), the AtomicMove and FullSyncMove rings, the pool allocator over both free lists, the stream-id FIFO of 10 kinds; k sweeps [2^32-3N, 2^32+2N] run after run, plus random k; "
-                "fast and checked (overflow checks) builds; distinct = distinct (transcript, k)",
+                "fast and checked (overflow checks) builds; the run on advanced counters has a thread of its own: a script that does not return is compared on the answers given so far and is a violation if the thread is still seen taking steps (retrying) seconds later, inconclusive otherwise; distinct = distinct (transcript, k)",
                 [dict(flavor="fast", lane="free", secs=8), dict(flavor="checked", lane="free", secs=8)], [dict(flavor="fast", lane="free", secs=150), dict(flavor="checked", lane="free", secs=150)], 5000, 50000,
                 ["'transported 2^32 events before' is restated as a constructor-time sequence origin (feature `verif`): the counters are the only state that remembers how many events flowed"]),
     "C18": plan("one evaluation = one concurrent history (2-4 threads, 2-9 operations each or fill-until-full / drain-until-empty bursts) on the atomic-flag stack, the parking-lot stack (free-running only), "
@@ -127,7 +128,7 @@ PLANS = {
     "C09": plan("one evaluation = one execution on the mmap log channel (MAX_STREAMS 2/4/8): 1-4 publishers (send / send_with), 1-4 listener threads that subscribe after a scheduler-chosen delay (new only / old+new "
                 "split / old+new joined) and consume at their own pace; afterwards a fresh joined subscription is drained = the log's total order; oracles: total order contains every accepted event once and "
                 "respects each publisher's order, joined listeners == it, split: old ++ new == it and the old stream ended, new-only: gap-free suffix, same address per event for every listener, references "
-                "re-read unchanged at the end; the evidence counts splits that really happened while publishing was under way; distinct = (schedule, config)",
+                "re-read unchanged at the end; the evidence counts splits that really happened while publishing was under way; in half of the runs earlier listeners (new / joined / split) were subscribed, (partly) consumed and dropped before the run, so ids and subscriber slots are recycled; a stream for new events must never end by itself and must yield whatever was sent after its subscription returned; distinct = (schedule, config)",
                 [ser(15), free(8), dict(flavor="asan", lane="free", secs=6, shards=4, crash_is_violation=True)], [ser(200), free(120), ser(60, flavor="checked"), dict(flavor="asan", lane="free", secs=80, crash_is_violation=True)], 1000, 10000,
                 ["the old-only subscription is unimplemented upstream and excluded, as the property says", "Miri and valgrind cannot run this channel (file-backed 2 TB sparse mmap); ASan can"]),
     "C10": plan("workload `random`: one evaluation = one sequential history (5-400, thorough 5-2000 steps) over {create listener, send, receive one / all, drop listener (with or without unconsumed events), cancel all} "
@@ -152,7 +153,7 @@ PLANS = {
     "C11": plan("one evaluation = one item script (0-32, thorough 0-64 items over {ok, error, slow, slow-then-error}) pushed through one of the five StreamExecutor::spawn_* functions, with / without a futures timeout, "
                 "6 instrument settings, concurrency limit 1-8, on a paused-time current-thread runtime (slow = 10x the timeout in virtual time) or a multi-thread runtime (slow = never completes; ok/error ready at first "
                 "poll); oracles at the close callback: ok + timed_out + failed == items and each counter == the ledger's count (metrics on), error callback exactly once per failed item, every item processed, slow items "
-                "dropped-not-completed under a timeout, in-flight gauge never above the limit; non-trivial = the script has at least one non-ok item",
+                "dropped-not-completed under a timeout, in-flight gauge never above the limit; asynchronous error callbacks that take longer than the futures timeout (each must have run to its end at the close callback); workload `wrappers` also drives the old-events / new-events executor pair of a log-channel Multi under the gauge; non-trivial = the script has at least one non-ok item",
                 [dict(flavor="fast", lane="free", secs=15), dict(flavor="fast", lane="free", secs=8, args=["--set", "workload=wrappers"])],
                 [dict(flavor="fast", lane="free", secs=200), dict(flavor="checked", lane="free", secs=80), dict(flavor="fast", lane="free", secs=100, args=["--set", "workload=wrappers"])], 1000, 10000,
                 ["on the multi-thread runtime no category depends on wall-clock time: ok / error items are ready at their first poll (tokio::time::timeout polls the inner future first), except in the "
@@ -163,7 +164,7 @@ PLANS = {
                 "workload (default, drawn per run) `uni`: a Uni with MAX_STREAMS 1/2/4 futures executors (3 channel kinds), user callback exactly once with finished_executors_count == MAX_STREAMS, no stream running, "
                 "no item in progress; `multi`: 2-3 pipelines on 4 Multi kinds, pipeline 0 removed by flush_and_cancel_executor at a random point, the rest closed: every callback exactly once, after the last item "
                 "of its stream (ledger stamps), ended state legal (ProgrammaticallyEnded only if scheduled), the other pipelines got every event; `sequential`: log channel, old events, spawn_futures_oldies_executor "
-                "with sequential_transition on/off, new events: with the flag on no new event starts before the last old one finished; paused-time and multi-thread runtimes; non-trivial = at least one event",
+                "with sequential_transition on/off, new events: with the flag on no new event starts before the last old one finished; paused-time and multi-thread runtimes; `multi`: 1 run in 4 ends with a close whose deadline expires while executors are busy (they must still end in an 'ended' state, ProgrammaticallyEnded only if scheduled); non-trivial = at least one event",
                 [dict(flavor="fast", lane="free", secs=12, args=["--set", "workload=direct"]), dict(flavor="fast", lane="free", secs=20)],
                 [dict(flavor="fast", lane="free", secs=120, args=["--set", "workload=direct"]), dict(flavor="fast", lane="free", secs=240), dict(flavor="checked", lane="free", secs=80)], 1000, 10000,
                 ["MAX_STREAMS = 3 is not constructible (the stream-id ring needs a power of two)", "a run that does not finish within the 60 s wall-clock watchdog is inconclusive"]),
